@@ -37,7 +37,7 @@ RULE = ("seven case kinds from one PRNG: rot24 = one of the 64 quarter-turn zxz 
         "taken from the real rotate: consistency only; angles with three decimals or in sevenths of a degree), complete positions on the 1/4 grid "
         "(boundaries included) or on a grid binary floats cannot hold (1/100, 1/1000, 1/6, 1/14; >= 1/20 from the voxel boundaries) in and around "
         "the container, split at random between x/y/z and the shift columns (x fractional in half of the particles), subtomo_id / tomo_id "
-        "unsorted with ids restarting per tomogram, "
+        "unsorted with ids restarting per tomogram, the 20 columns stored in canonical, reversed, z-y-x or randomly permuted order (observed by name), "
         "colouring field object_id (keyword omitted in 2/3 of these: default) / score / geom1 / class with values <= 0 too, default / offset / "
         "shuffled / filtered / duplicated DataFrame index, float or int64 columns, volume (array or file name) or volume_shape (tuple / list); "
         "30 % with Motl.shift_positions(v) (in place, default, or inplace=False) before placing; 40 % with a second call on the same template "
@@ -733,7 +733,7 @@ def gen_place(rng, tier="quick"):
     case = dict(kind="place", cshape=C, cinit=cinit, tshape=tshape, tdata=_template(rng, tshape), tden=tden, parts=parts, feature=feature,
                 index=rng.choice(["default", "offset", "shuffled", "filtered", "duplicated"]), tlist=tlist, pden=pden,
                 kw_feature=not (feature == "object_id" and rng.random() < 0.65),       # G1: feature_to_color omitted -> 'object_id'
-                vshape_as=rng.choice(["tuple", "list"]),
+                vshape_as=rng.choice(["tuple", "list"]), colorder=_col_order(rng),
                 # H3: a table read from a STAR file whose values are all whole numbers has int64 columns (also under shift_positions,
                 # which converts the row to float before adding the rotated offset)
                 intcols=rng.random() < 0.3)
@@ -772,7 +772,7 @@ def gen_placeblob(rng):
         ang = [rng.randint(-720, 720) / 4.0, rng.randint(0, 720) / 4.0, rng.randint(-720, 720) / 4.0]
     if rng.random() < 0.1:
         ang = [90.0 * rng.randrange(4) for _ in range(3)]
-    return dict(kind="placeblob", tshape=T, sigma=sig, v=v, cshape=C, pos4=pos4, angles=ang, col=rng.randint(1, 30))
+    return dict(kind="placeblob", tshape=T, sigma=sig, v=v, cshape=C, pos4=pos4, angles=ang, col=rng.randint(1, 30), colorder=_col_order(rng))
 
 
 # the number of folds as a user may hold it: python int / float, 'C<n>' / 'c<n>', and the numpy scalars that indexing an integer array,
@@ -870,6 +870,8 @@ def shrink(case):
                 yield {kk: vv for kk, vv in case.items() if kk != opt}
         if case.get("intcols"):
             yield dict(case, intcols=False)
+        if case.get("colorder"):
+            yield dict(case, colorder=None)
         if case["index"] != "default":
             yield dict(case, index="default")
         for i, p in enumerate(parts):
@@ -911,6 +913,22 @@ def shrink(case):
 
 
 # ------------------------------------------------------------------ implementation
+def _col_order(rng):
+    """round 8: the 20 columns as a user's frame may store them (Motl() accepts any order: check_df_correct_format compares sorted names) -
+    None = canonical, else reversed, the x/y/z and shift triples as z-y-x, or a random permutation; everything is observed by column NAME"""
+    k = rng.choice(["canonical", "canonical", "reversed", "zyx", "perm"])
+    if k == "canonical":
+        return None
+    cols = list(COLUMNS)
+    if k == "reversed":
+        return cols[::-1]
+    if k == "zyx":
+        sw = {"x": "z", "z": "x", "shift_x": "shift_z", "shift_z": "shift_x"}
+        return [sw.get(c, c) for c in cols]
+    rng.shuffle(cols)
+    return cols
+
+
 def _motl(case):
     import pandas as pd
     from cryocat import cryomotl
@@ -931,6 +949,8 @@ def _motl(case):
         for c in COLUMNS:
             if bool((df[c] == np.floor(df[c])).all()):
                 df[c] = df[c].astype("int64")
+    if case.get("colorder"):
+        df = df[list(case["colorder"])]
     mode = case.get("index", "default")
     if mode == "offset":
         df.index = np.arange(n) + 5
@@ -1210,6 +1230,8 @@ def run_impl(case):
         df.loc[0, ["phi", "theta", "psi"]] = case["angles"]
         df.loc[0, ["subtomo_id", "tomo_id"]] = [1, 1]
         df.loc[0, "object_id"] = float(case["col"])
+        if case.get("colorder"):
+            df = df[list(case["colorder"])]
         motl = cryomotl.Motl(df)
         out = cryomap.place_object(tmpl, motl, volume_shape=tuple(case["cshape"]))       # feature_to_color omitted: default
         Racc = np.asarray(motl.get_rotations().as_matrix(), dtype=float).reshape(-1, 9).tolist()
@@ -1910,6 +1932,8 @@ def stats(case, obs, resps):
         st["place:shift_positions first"] = "no" if case.get("shiftpos") is None else f"inplace={case['shiftpos']['inplace']}"
         st["place:columns"] = "int64 where whole" if case.get("intcols") else "float"
         st["place:position grid"] = "1/%d" % case.get("pden", 4)
+        co = case.get("colorder")
+        st["place:column order of the frame"] = "canonical" if not co else ("reversed" if co == COLUMNS[::-1] else "permuted")
         st["place:x, y, z"] = "fractional in some rows" if any(any(p.get("xnum", [0, 0, 0])) for p in case["parts"]) else "whole numbers"
         st["place:subtomo_id order"] = "as generated (unsorted)" if any("sid" in p for p in case["parts"]) else "1..n"
         try:
